@@ -50,7 +50,7 @@ def short_exc(e: BaseException) -> dict[str, str]:
         if "/site-packages/" not in fr.filename and "importlib" not in fr.filename and "w_obs" not in fr.filename:
             where = f"{Path(fr.filename).name}:{fr.lineno}"
             break
-    return {"type": type(e).__name__, "msg": str(e)[:300], "where": where}
+    return {"type": type(e).__name__, "msg": str(e)[:300], "where": where, "file": (getattr(e, "filename", None) or (tb[-1].filename if tb else "")) if isinstance(e, SyntaxError) else next((fr.filename for fr in reversed(tb) if "/site-packages/" not in fr.filename and "importlib" not in fr.filename and "w_obs" not in fr.filename and "<frozen" not in fr.filename), "")}
 
 
 def pkg_dir(root: str, pkg: str) -> Path:
@@ -231,7 +231,14 @@ def obs_models(job: dict) -> Any:
     return out
 
 
-OBS = {"compile": obs_compile, "import": obs_import, "exports": obs_exports, "models": obs_models}
+def obs_facts(job: dict) -> Any:
+    from harness import astfacts
+
+    pkgs = [job["pkg"]] + ([job["core"]] if job.get("core") else [])
+    return astfacts.package_facts(job["root"], pkgs)
+
+
+OBS = {"compile": obs_compile, "import": obs_import, "exports": obs_exports, "models": obs_models, "facts": obs_facts}
 
 
 def register(name: str):
